@@ -15,7 +15,9 @@ const (
 	TList // list or vector of ints
 	TFn   // int -> int
 	TAny
-	tRec // recursion template function: int -> int, only called with small arguments
+	tRec   // recursion template function: int -> int, only called with small arguments
+	tRecC0 // (r n acc) -> list of zero-argument closures, one per iteration
+	tRecC1 // (r n acc) -> list of one-argument closures, one per iteration
 )
 
 // PFlags selects the constructs the program generator may use.
@@ -173,6 +175,14 @@ func Program(t *rapid.T, f PFlags) Prog {
 			sc = sc.with(tvar{name, TAny})
 		}
 	}
+	// every closure-collecting loop is consumed at least once
+	for _, rc := range append(sc.of(tRecC0), sc.of(tRecC1)...) {
+		arg := lst(sym("f"))
+		if sc.visible()[rc] == tRecC1 {
+			arg = lst(sym("f"), val.I(1))
+		}
+		forms = append(forms, call("trace!", call("map", call("fn", lst(sym("f")), arg), call(rc, g.smallArg(sc), call("list")))))
+	}
 	nbody := rapid.IntRange(1, 3).Draw(t, "nbody")
 	for i := 0; i < nbody; i++ {
 		ty := Ty(g.pick("bodyty", 5))
@@ -193,7 +203,43 @@ func (g *pg) recTemplate(i int, sc scope) ([]val.V, []tvar) {
 		return x
 	}
 	dec := call("-", n, val.I(1))
-	switch g.pick("reckind", 5) {
+	switch g.pick("reckind", 8) {
+	case 5, 6, 7: // tail loop with generated statements that collects a closure (or a local def) per iteration
+		g.use("closure-per-iteration")
+		g.use("closure-capture")
+		acc := sym("acc")
+		sc2 := sc.with(tvar{"n", TInt})
+		ss, sc3 := g.stmts(3, sc2)
+		var item val.V
+		ty := tRecC0
+		switch g.pick("recitem", 4) {
+		case 0:
+			item = call("fn", lst(), n)
+		case 1:
+			item = call("fn", lst(), call("+", n, g.leaf(TInt, sc3)))
+		case 2:
+			ss = append(ss, call("def", sym("z"), call("*", n, val.I(10))))
+			item = call("fn", lst(), call("list", n, sym("z")))
+		default:
+			ty = tRecC1
+			item = call("fn", lst(sym("x")), call("+", sym("x"), n))
+		}
+		tail := call(name, dec, call("cons", item, acc))
+		var body val.V
+		switch g.pick("rectail", 4) {
+		case 0:
+			body = call("if", call("<", n, val.I(1)), acc, val.V{K: val.List, L: append(append([]val.V{sym("do")}, ss...), tail)})
+		case 1:
+			body = call("if", call(">", n, val.I(0)), val.V{K: val.List, L: append(append([]val.V{sym("let"), lst(sym("m"), n)}, ss...), tail)}, acc)
+		case 2:
+			body = call("cond", call("<", n, val.I(1)), acc, val.B(true), val.V{K: val.List, L: append(append([]val.V{sym("do")}, ss...), tail)})
+		default:
+			// the statements sit in the fn body itself, the tail call in the if
+			fnb := append([]val.V{sym("fn"), lst(n, acc)}, ss...)
+			fnb = append(fnb, call("if", call("<", n, val.I(1)), acc, tail))
+			return []val.V{call("def", sym(name), val.V{K: val.List, L: fnb})}, []tvar{{name, ty}}
+		}
+		return []val.V{call("def", sym(name), call("fn", lst(n, acc), body))}, []tvar{{name, ty}}
 	case 0: // non-tail
 		body := call("if", call("<", n, val.I(1)), val.I(0), call("+", tr(n), call(name, dec)))
 		return []val.V{call("def", sym(name), call("fn", lst(n), body))}, []tvar{{name, tRec}}
@@ -567,6 +613,13 @@ func (g *pg) listExpr(d int, sc scope) val.V {
 	case c == 8:
 		if g.f.QQ {
 			return g.qqList(d, sc)
+		}
+	case c == 9:
+		if rs := sc.of(tRecC0); len(rs) > 0 {
+			return call("map", call("fn", lst(sym("f")), lst(sym("f"))), call(rapid.SampledFrom(rs).Draw(g.t, "recc0"), g.smallArg(sc), call("list")))
+		}
+		if rs := sc.of(tRecC1); len(rs) > 0 {
+			return call("map", call("fn", lst(sym("f")), lst(sym("f"), g.expr(TInt, d-1, sc))), call(rapid.SampledFrom(rs).Draw(g.t, "recc1"), g.smallArg(sc), call("list")))
 		}
 	}
 	return g.leaf(TList, sc)
